@@ -61,7 +61,7 @@ def generate(rng, tier):
     for L in range(0, maxlen + 1):
         combos = list(itertools.product(idx, repeat=L))
         if L >= 3:
-            combos = rng.sample(combos, 150 if tier == "quick" else 3000)
+            combos = rng.sample(combos, min(len(combos), 150 if tier == "quick" else 3000))
         solos += combos
     for s in solos:
         cases.append(mk("solo%d" % n, [(0, oi) for oi in s]))
